@@ -79,6 +79,7 @@ class FallbackClient:
         return None
 
     def get_many(self, keys):
+        keys = list(keys)  # each cache must see all keys, also for a one-shot iterator
         for cache in self.caches:
             result = cache.get_many(keys)
             if result:
@@ -88,11 +89,13 @@ class FallbackClient:
     def gets(self, key):
         for cache in self.caches:
             result = cache.gets(key)
-            if result is not None:
+            # a miss is reported as (None, None) by the clients
+            if result is not None and result != (None, None):
                 return result
         return None
 
     def gets_many(self, keys):
+        keys = list(keys)
         for cache in self.caches:
             result = cache.gets_many(keys)
             if result:
